@@ -133,9 +133,15 @@ type inResult struct {
 	BurstsCold    int `json:"bursts_cold,omitempty"`
 	BurstAnswered int `json:"burst_answered,omitempty"`
 	// Polls: requests of the http_endpoint provider's poller answered with the input's scripted response
-	Polls    int       `json:"polls,omitempty"`
-	Problems []problem `json:"problems,omitempty"`
-	Notes    []string  `json:"notes,omitempty"`
+	Polls int `json:"polls,omitempty"`
+	// CredFiles: contents the credentials file of the redis cache was brought to (one system call each); Reconnects: times all
+	// connections to redis were cut and the client opened a new one for the request that followed; CacheRequests: requests
+	// answered through the rule that uses the cache
+	CredFiles     int       `json:"cred_files,omitempty"`
+	Reconnects    int       `json:"reconnects,omitempty"`
+	CacheRequests int       `json:"cache_requests,omitempty"`
+	Problems      []problem `json:"problems,omitempty"`
+	Notes         []string  `json:"notes,omitempty"`
 }
 
 type doneMarker struct {
